@@ -93,7 +93,9 @@ package nat
 // DeallocateNAT: the removal happens under allocationMu, the counter update later under
 // poolMu; what is checked are the lock invariants at both releases.
 //@ func (m *Manager) DeallocateNAT
+//@   modifies m.allocations, m.pool, m.natLogger.buffer, m.natLogger.currentFile, m.natLogger.currentSize, m.natLogger.portBlockBuffer
 //@   ensures true
+//@   sets relNAT = relNAT + 1
 
 //@ func (m *Manager) GetAllocation
 //@   ensures result != nil ==> m.portRangeStart <= result.PortStart && result.PortEnd <= m.portRangeEnd && result.PortEnd - result.PortStart + 1 == m.portsPerSubscriber
